@@ -320,8 +320,26 @@ example : (Tree.node 9 (.leaf 0) (.node 8 (.leaf 2) (.leaf 1))).IsCodeTree 3 := 
   unfold Tree.IsCodeTree
   decide
 
+/-! ## 5. Outside `WeightsFit`: open finding D34
+
+Integer weights whose total does not fit the weight type: with overflow checks the constructor
+panics (`checkedOps`), without them the sums wrap (`wrappingOps`) and the code need not be
+optimal.  `from_probabilities` is generic in `P : Ord + Clone + Add`, so it cannot detect the
+overflow without an API change; recorded as an open known finding, not repaired. -/
+
+/-- `u8` weights `[200, 100, 60, 250, 120]`: a checked build panics, a release build returns a
+    code of cost 1650 while the optimum (what the same weights give as `u32`) costs 1620 -/
+theorem D34_weight_total_overflow_counterexample :
+    encTree (checkedOps 8) [200, 100, 60, 250, 120] = .error (.overflow "huff.add") ∧
+    (∃ en, encTree (wrappingOps 8) [200, 100, 60, 250, 120] = .ok en ∧
+      codeCost [200, 100, 60, 250, 120] en = 1650) ∧
+    (∃ en, encTree (checkedOps 32) [200, 100, 60, 250, 120] = .ok en ∧
+      codeCost [200, 100, 60, 250, 120] en = 1620) := by
+  refine ⟨by rfl, ⟨_, rfl, by decide⟩, ⟨_, rfl, by decide⟩⟩
+
 end CV.Huff.C15
 
+#print axioms CV.Huff.C15.D34_weight_total_overflow_counterexample
 #print axioms CV.Huff.C15.constructors_agree
 #print axioms CV.Huff.C15.constructors_agree_conv
 #print axioms CV.Huff.C15.same_tree
